@@ -124,7 +124,7 @@ def obligations():
                 quick = on in ('', reads)     # quick tier: all-off and all-on subsets; thorough: every subset
                 obs.append(Ob(id='C02.' + n, props=['C02', 'C01', 'C03', 'C12'], tu='kernel', tier='B',
                               roots=[TK + '::delete_%s_core' % kind], harness=mh, includes=['wf.h', 'view.h'],
-                              copies=[TK], defines=d, inline_vec=INLINE, unwind=6, covers=2, timeout=900, quick=quick, stubs=REORDER_STUB,
+                              copies=[TK], defines=d, inline_vec=INLINE, unwind=6, covers=2, timeout=900, quick_for=(['C02'] if quick else ['C12']), stubs=REORDER_STUB,
                               bounds=dict(zip(('vertices', 'edges', 'faces', 'cells', 'face_valence', 'cell_valence', 'outgoing_list', 'incident_list'), (CAPS[kind][k] for k in ('v', 'e', 'f', 'c', 'fv', 'cv', 'out', 'inc')))),
                               note='delete_%s_core, %s mode, bottom-up kinds enabled: %s; precondition: victim live and not referenced by a live higher entity' % (kind, mode, on or 'none')))
     return obs
